@@ -53,7 +53,7 @@ def judge(case, obs):
 
 
 def run_cases(cases, jobs, tag):
-    path = vlib.workfile("c18-%s.ndjson" % tag)
+    path = vlib.workfile("c18-%d-%s.ndjson" % (os.getpid(), tag))
     lines = [{"plan": c["plan"], "gaps": c["gaps"], "mode": c.get("mode", "async"),
               "timeout_ms": TIMEOUT_MS, "limit": LIMIT} for c in cases]
     vlib.write_ndjson(path, lines)
@@ -119,7 +119,7 @@ def validate_shard(args):
     rounds = 0
     while rest and rounds < 4:
         rounds += 1
-        path = vlib.workfile("c18-trace-%s-%d.ndjson" % (label, rounds))
+        path = vlib.workfile("c18-%d-trace-%s-%d.ndjson" % (os.getpid(), label, rounds))
         vlib.write_ndjson(path, rest)
         ok, info = vlib.validate_trace("Trace_Sandbox", "Trace_Sandbox", path, timeout=1800, tag="c18v")
         st += info["distinct"]
@@ -167,7 +167,9 @@ def trace_leg(run, good, thorough):
                        % (nrej, nleft))
     run.traces(nacc)
     run.note("distinct_event_sequences_validated", nacc)
-    run.sample({"leg": "V", "trace": lines[len(lines) // 2]})
+    mid = lines[len(lines) // 2]
+    run.sample({"leg": "V", "plan": mid["plan"],
+                "events": ["%s:%s%s" % (e["e"], e["v"], ("/" + e["c"]) if e["c"] else "") for e in mid["events"]]})
     # self-check: a corrupted trace must be rejected
     victim = None
     for ln in lines:
@@ -180,7 +182,7 @@ def trace_leg(run, good, thorough):
         if e["e"] == "response" and e["v"] == 2:
             e["v"] = 0          # claims a reply frame where the child had died
             break
-    path = vlib.workfile("c18-corrupt.ndjson")
+    path = vlib.workfile("c18-%d-corrupt.ndjson" % os.getpid())
     vlib.write_ndjson(path, [lines[0], victim])
     ok, info = vlib.validate_trace("Trace_Sandbox", "Trace_Sandbox", path, tag="c18c")
     if ok or not info.get("reject", "").startswith("2,"):
@@ -199,9 +201,9 @@ def design_leg(run, thorough):
         vlib.require_ok(r, cfg)
         run.add_tlc(r, cfg)
         return r
-    clean("MC_Sandbox_fixed5" if thorough else "MC_Sandbox_fixed4", 8 if thorough else 6, 1800)
+    clean("MC_Sandbox_fixed5", 8, 1800)
     clean("MC_Sandbox_noview", 4, 600)
-    r = clean("MC_Sandbox_live3" if thorough else "MC_Sandbox_live2", 4, 1800)
+    r = clean("MC_Sandbox_live4" if thorough else "MC_Sandbox_live3", 8 if thorough else 4, 1800)
     if "Checking temporal properties" not in r.stdout:
         raise vlib.ToolError("liveness configuration did not check a temporal property")
     # the transcription of the code before the fix must run into the wedge
@@ -243,7 +245,23 @@ def generate(run, thorough):
     return out
 
 
+def cleanup():
+    import glob
+    for f in glob.glob(os.path.join(vlib.WORK, "c18-%d-*" % os.getpid())):
+        try:
+            os.remove(f)
+        except OSError:
+            pass
+
+
 def run(tier, seed):
+    try:
+        return run_(tier, seed)
+    finally:
+        cleanup()
+
+
+def run_(tier, seed):
     run = vlib.Run(PROP, tier, seed, "model_checking")
     thorough = tier == "thorough"
     run.cov["rule"] = (
@@ -253,7 +271,7 @@ def run(tier, seed):
         "blocking gaps) and each reply compared with the set of classes the property admits; a mismatch is re-run alone before "
         "it is believed. Non-trivial = the sequence contains a fault followed by a later request; distinct by fault sequence. "
         "V: the hook/call/ret event sequence of every conforming run is validated by Trace_Sandbox.tla (distinct sequences)."
-        % (5 if thorough else 4,
+        % (5,
            " (length <= 4 with every gap vector, length 5 with all gaps 0 and all gaps 60 ms)" if thorough else " (length <= 3, every gap vector)",
            TIMEOUT_MS, LIMIT >> 20))
     run.assumptions += [
@@ -354,4 +372,5 @@ def replay(path, seed):
         if b is not None:
             rc = 1
     log("recorded : %s" % json.dumps(case.get("observed")))
+    cleanup()
     return rc
